@@ -47,7 +47,8 @@ variable (P : Params) (H : Bytes → Bytes) (utf8 : Bytes → Bool) (ops : List 
     (encPlain P cfg (Writer.run P H ops).2.2 cs).length / P.chunk + 1 < U32)
   (hcs : cfg.compressed = true → CompFS.IsEncoded P K (Writer.run P H ops).2.2 cs)
   (hfit : cfg.compressed = true → CompFits P cs)
-include hC hK hrd hrd0 hchunks hcs hfit
+  (hfile : (hdr ++ sealedBody P C cfg (Writer.run P H ops).2.2 cs).length < U64)
+include hC hK hrd hrd0 hchunks hcs hfit hfile
 
 /-- **C01.stack_cursor** — the initialised reader stack over the archive file behaves like a plain
     cursor over the block stream, whatever layers are enabled. -/
@@ -57,7 +58,7 @@ theorem stack_cursor :
       openStack P C K rd cfg hdr.length (hdr ++ sealedBody P C cfg (Writer.run P H ops).2.2 cs)
         = .ok s ∧
       IsCursor Inv abs (Writer.run P H ops).2.2 ∧ Inv s :=
-  openStack_cursor P C K rd hC hK.decFinish hrd hrd0 cfg _ cs hdr hchunks hcs hfit
+  openStack_cursor P C K rd hC hK.decFinish hrd hrd0 cfg _ cs hdr hchunks hcs hfit hfile
 
 variable (hH : ∀ b, (H b).length = hashLen) (hwf : ∀ op ∈ ops, op.WF utf8)
   (hacc : AllAccepted P H ops) (hfin : ops.getLast? = some .finalize)
@@ -88,7 +89,7 @@ theorem archive_roundtrip :
           bs.flatten <+: content ∧ C10.Fits bs ns ∧
           ((∀ n ∈ ns, 0 < n) → content.length ≤ ns.length → bs.flatten = content)) := by
   obtain ⟨Inv, abs, s, hopen, hcur, hs⟩ :=
-    stack_cursor P H ops C K rd hC hK hrd hrd0 cfg cs hdr hchunks hcs hfit
+    stack_cursor P H ops C K rd hC hK hrd hrd0 cfg cs hdr hchunks hcs hfit hfile
   have hpf := archive P H utf8 ops hH hwf hacc hfin hlen hpos hfoot
   obtain ⟨s', hfs, hs'⟩ := parseFooterS_ok hcur utf8 s hs _ hpf
   refine ⟨⟨s', (Writer.run P H ops).1.index, none⟩, ?_, rfl, rfl, ?_, ?_, ?_⟩
@@ -191,7 +192,8 @@ theorem archive_roundtrip_file (scfg : StackCfg) (cutTop cutComp : Cut) (hdr : B
     (hchunks : scfg.encrypt = true →
       (Stack.inner P H K scfg cutTop ops).length / P.chunk + 1 < U32)
     (hsmall : scfg.compress.isSome = true →
-      (Stack.inner P H K scfg cutTop ops).length < U32 ∧ P.block < U32) :
+      (Stack.inner P H K scfg cutTop ops).length < U32 ∧ P.block < U32)
+    (hfile : (hdr ++ (Stack.run P H C K scfg cutTop cutComp ops).dest).length < U64) :
     ∃ a₀ : ArS (ReaderStackT P C K rd (LayerCfg.ofStack scfg)),
       openArchive P C K rd utf8 (LayerCfg.ofStack scfg) hdr.length
         (hdr ++ (Stack.run P H C K scfg cutTop cutComp ops).dest) = .ok a₀ ∧
@@ -210,7 +212,7 @@ theorem archive_roundtrip_file (scfg : StackCfg) (cutTop cutComp : Cut) (hdr : B
           bs.flatten <+: content ∧ C10.Fits bs ns ∧
           ((∀ n ∈ ns, 0 < n) → content.length ≤ ns.length → bs.flatten = content)) := by
   obtain ⟨cs, hcs, hdest, hinner⟩ := stack_body_inner P H C K scfg cutTop cutComp ops hacc hfin
-  rw [hdest]
+  rw [hdest] at hfile ⊢
   have henc : (LayerCfg.ofStack scfg).encrypted = true → scfg.encrypt = true := by
     obtain ⟨lvl, enc⟩ := scfg
     cases lvl <;> cases enc <;> simp [LayerCfg.ofStack, LayerCfg.encrypted]
@@ -295,6 +297,9 @@ set_option maxRecDepth 1000000 in
 theorem exPt_inner :
     (Stack.inner EncFS.Pt exH Codec.stored exStackCfg Cut.whole exOps).length = 899 := by decide +kernel
 
+set_option maxRecDepth 1000000 in
+theorem exFile_len : exFile.length < U64 := by decide +kernel
+
 /-- `archive_roundtrip_file` applies to the example: every hypothesis is met -/
 example :
     ∃ a₀ : ArS (ReaderStackT EncFS.Pt EncFS.Ct Codec.stored id .compEnc),
@@ -307,12 +312,13 @@ example :
       ⟨EncFS.hTagT⟩ Codec.stored_laws (fun m hm => ⟨hm, Nat.le_refl _⟩) rfl exH_len exOps_wf
       exPt_accepted exOps_last exOps_len exPt_pos exPt_foot exStackCfg Cut.whole Cut.whole [1, 2, 3]
       (fun _ => by rw [exPt_inner]; decide) (fun _ => ⟨by rw [exPt_inner]; decide, by decide⟩)
+      exFile_len
   exact ⟨a₀, h1, fun h name content hm => (h6 h name content hm).2.1⟩
 
 /-- and with the production constants, encryption only, any primitives with 16-byte tags, any
     header, any cut -/
 example (C : EncPrims) (hTag : ∀ i c, (C.tag i c).length = Params.prod.tagLen) (hdr : Bytes)
-    (cutTop cutComp : Cut) :
+    (hh : hdr.length < U32) (cutTop cutComp : Cut) :
     ∃ a₀ : ArS (ReaderStackT Params.prod C Codec.stored id .enc),
       openArchive Params.prod C Codec.stored id (fun _ => true) .enc hdr.length
         (hdr ++ (Stack.run Params.prod exH C Codec.stored ⟨none, true⟩ cutTop cutComp exOps).dest)
@@ -321,11 +327,21 @@ example (C : EncPrims) (hTag : ∀ i c, (C.tag i c).length = Params.prod.tagLen)
         (ArS.run Params.prod (fun _ => true) a₀ h).2 ++ [.names [[97], [98], [99]]] := by
   have hin : (Stack.inner Params.prod exH Codec.stored ⟨none, true⟩ cutTop exOps).length = 427 := by
     rw [C07.inner_plain]; exact exOps_len427
+  have hfile : (hdr ++ (Stack.run Params.prod exH C Codec.stored ⟨none, true⟩ cutTop cutComp
+      exOps).dest).length < U64 := by
+    obtain ⟨cs, _, hdest, _⟩ := stack_body_inner Params.prod exH C Codec.stored ⟨none, true⟩ cutTop
+      cutComp exOps exOps_accepted exOps_last
+    have hl : (sealS Params.prod C (Writer.run Params.prod exH exOps).2.2).length = 427 + 16 := by
+      rw [sealS_length Params.prod C hTag]; unfold nLast; rw [exOps_len427]; decide
+    rw [hdest]
+    simp only [sealedBody, LayerCfg.ofStack, List.length_append, hl]
+    have : U32 + 443 < U64 := by decide
+    omega
   obtain ⟨a₀, h1, _, _, _, h5, _⟩ :=
     archive_roundtrip_file Params.prod exH (fun _ => true) exOps C Codec.stored id
       ⟨hTag⟩ Codec.stored_laws (fun m hm => ⟨hm, Nat.le_refl _⟩) rfl exH_len exOps_wf
       exOps_accepted exOps_last exOps_len exOps_pos exOps_foot ⟨none, true⟩ cutTop cutComp hdr
-      (fun _ => by rw [hin]; decide) (fun h => by simp at h)
+      (fun _ => by rw [hin]; decide) (fun h => by simp at h) hfile
   exact ⟨a₀, h1, h5⟩
 
 end examples
